@@ -31,6 +31,8 @@ HOSTILE_NAMES = ["class", "def", "None", "True", "False", "import", "from", "lam
                  "bytes", "tuple", "dataclass", "XmlDate", "xmlDateTime", "XmlPeriod", "sequence", "Mapping", "ForwardRef", "mro", "__slots__", "__init__", "__module__", "_a_", "__annotations__",
                  # names of the python types the XSD built-ins map to (a no-namespace user type `bytes` next to an xs:hexBinary element)
                  "str", "int", "float", "bool", "Decimal", "QName"]
+PYTHON_TYPE_NAMES = {"string": "str", "token": "str", "normalizedString": "str", "int": "int", "integer": "int", "long": "int", "short": "int", "byte": "int", "nonNegativeInteger": "int",
+                     "positiveInteger": "int", "unsignedInt": "int", "hexBinary": "bytes", "base64Binary": "bytes", "decimal": "Decimal", "boolean": "bool", "float": "float", "double": "float", "QName": "QName"}
 # names that become the same identifier after the naming conventions: 3 or more of one family in one scope
 COLLISION_FAMILIES = [["foo_bar", "foo-bar", "fooBar", "FooBar", "foo.bar"], ["a-b", "a.b", "a_b", "aB", "a__b"], ["zip-code", "zip_code", "zipCode", "ZipCode", "zip.code"],
                       ["km", "Km", "KM"], ["a1", "A1", "a-1", "a_1"], ["_1st", "1st", "n1st"],
@@ -351,6 +353,18 @@ class XsdGen:
                 if kind == "all":
                     e.min, e.max = rng.choice([(0, 1), (1, 1)])
                 g.items.append(e)
+        if self.hostile and not self.simple and kind != "all" and rng.random() < 0.2:
+            # a sibling named like the python type a built-in of this group maps to, with a type of its own (in a schema without
+            # target namespace the class is just `bytes` / `str`: choices are compared by python type name and by class name)
+            for x in list(g.items):
+                py = PYTHON_TYPE_NAMES.get(x.type.base) if isinstance(x, ElemDecl) and isinstance(x.type, SimpleT) else None
+                if py and py not in used and self.class_safe(py):
+                    used.add(py)
+                    twin = ElemDecl(py, self.complex_type(ss, schema, None, depth + 1, ctypes))
+                    twin.min, twin.max = x.min, 1
+                    g.items.append(twin)
+                    self.feat.add("element-named-like-python-type-of-sibling")
+                    break
         if kind == "choice":
             for x in g.items:
                 if isinstance(x, ElemDecl):
